@@ -18,7 +18,15 @@ Fail-closed: any unexpected shape raises GenError.
 """
 from __future__ import annotations
 import ast, os, re, importlib, pkgutil
-from gen_tables import GenError, HEADER, REPO, coq_bytes, coq_str, coq_N, coq_Z
+from gen_tables import GenError, HEADER, REPO, coq_bytes, coq_N, coq_Z
+
+
+def coq_str(s):
+    """text as `list byte` (UTF-8 = ASCII here): Coq's `string` type is avoided on purpose, its extraction
+    shadows OCaml's string in the driver"""
+    if not isinstance(s, str) or not s.isascii() or any(ord(c) < 32 or ord(c) > 126 for c in s):
+        raise GenError("unexpected text %r" % (s,))
+    return coq_bytes(s.encode("ascii"))
 
 
 def _tree(rel):
@@ -333,17 +341,35 @@ def _token_opcodes():
     return sorted(hexs, key=lambda t: t[0]), sorted(ints)
 
 
+def _opcode_names():
+    """opcode_to_int of the live BitcoinScriptTools as (name bytes, value), in OPCODE_LIST order, cross-checked
+    against the OPCODE_LIST literal (the same check as gen_tables.gen_opcodes)"""
+    from gen_tables import ast_literal_of
+    from pycoin.satoshi import opcodes
+    from pycoin.coins.bitcoin.ScriptTools import BitcoinScriptTools as T
+    lit = ast_literal_of("pycoin/satoshi/opcodes.py", "OPCODE_LIST")
+    live = list(opcodes.OPCODE_LIST)
+    if live[: len(lit)] != lit or live[len(lit):] != [("OP_PUSH_%d" % i, i) for i in range(1, 76)]:
+        raise GenError("OPCODE_LIST literal differs from the imported value")
+    if T.opcode_to_int != dict(live):
+        raise GenError("BitcoinScriptTools.opcode_to_int is not dict(OPCODE_LIST)")
+    return ("(* opcode names as text bytes (the same list as GenOpcodes.opcode_list; AddressP.opcode_names_agree) *)\n"
+            "Definition opcode_names : list (list byte * N) :=\n  [ " +
+            ";\n    ".join("(* %s *) (%s, %s)" % (n, coq_str(n), coq_N(v)) for n, v in live) + " ].\n\n")
+
+
 def gen_networks() -> str:
     rows = _symbol_rows()
     out = [HEADER]
     out.append("(* kinds: 0 p2pkh, 1 p2sh, 2 p2pkh_wit (P2WPKH), 3 p2sh_wit (P2WSH), 4 p2tr *)\n")
-    out.append("Record netrow := mk_net { nr_symbol : string; nr_name : string; nr_subnet : string;\n"
+    out.append("Record netrow := mk_net { nr_symbol : list byte; nr_name : list byte; nr_subnet : list byte;\n"
                "  nr_pkh : option (list byte); nr_sh : option (list byte); nr_wif : option (list byte);\n"
                "  nr_hrp : option (list byte); nr_std : bool; nr_kinds : list N }.\n\n")
     lines = []
     for live, std, kinds in rows:
         hrp = live["bech32_hrp"]
-        lines.append("mk_net %s %s %s %s %s %s %s %s [%s]" % (
+        lines.append("(* %s %s %s *) mk_net %s %s %s %s %s %s %s %s [%s]" % (
+            live["symbol"], live["network_name"], live["subnet_name"],
             coq_str(live["symbol"]), coq_str(live["network_name"]), coq_str(live["subnet_name"]),
             _opt_bytes(live["address_prefix"]), _opt_bytes(live["pay_to_script_prefix"]), _opt_bytes(live["wif_prefix"]),
             _opt_bytes(hrp.encode("ascii") if hrp is not None else None), "true" if std else "false",
@@ -360,7 +386,7 @@ def gen_networks() -> str:
         if by_hand != T.compile(text):
             raise GenError("template %r: token-wise compilation differs from compile()" % text)
     out.append("(* templates of ContractAPI.info_for_script in call order; (true, X) = quoted placeholder 'X', (false, N) = opcode name *)\n")
-    out.append("Definition match_templates : list (list (bool * string)) :=\n  [ " + ";\n    ".join(
+    out.append("Definition match_templates : list (list (bool * list byte)) :=\n  [ " + ";\n    ".join(
         "[" + "; ".join("(%s, %s)" % ("true" if q else "false", coq_str(t)) for q, t in toks) + "]" for _, toks in tm) + " ].\n\n")
     names, lo, hi, pkh, seg, syn = _match_constants()
     out.append("Definition placeholder_names : list (list byte) :=\n  [ " + "; ".join(coq_bytes(n) for n in names) + " ].\n")
@@ -371,16 +397,17 @@ def gen_networks() -> str:
     out.append("Definition multisig_key_min : nat := %d.\nDefinition multisig_key_max : nat := %d.\n\n" % (mlo, mhi))
     out.append("(* _SCRIPT_LOOKUP: type, tokens of the format string: inl true = %s slot, inl false = %d slot, inr name = opcode *)\n")
     fm = _script_formats()
-    out.append("Definition script_formats : list (string * list (bool + string)) :=\n  [ " + ";\n    ".join(
+    out.append("Definition script_formats : list (list byte * list (bool + list byte)) :=\n  [ " + ";\n    ".join(
         "(%s, [%s])" % (coq_str(n), "; ".join("inl true" if t is None else ("inl false" if t == "%d" else "inr " + coq_str(t)) for t in toks))
         for n, toks in fm) + " ].\n\n")
     pc, segp, (enc32, enc32m) = _parse_constants()
     out.append("Definition p2pkh_payload_len : nat := %d.\nDefinition p2sh_payload_len : nat := %d.\n" % (pc["p2pkh"], pc["p2sh"]))
     out.append("(* ParseAPI.p2pkh_segwit / p2sh_segwit / p2tr: (parser, expected version, program length, ContractAPI constructor) *)\n")
-    out.append("Definition segwit_parsers : list (string * N * nat * string) :=\n  [ " + "; ".join(
+    out.append("Definition segwit_parsers : list (list byte * N * nat * list byte) :=\n  [ " + "; ".join(
         "(%s, %s, %d%%nat, %s)" % (coq_str(n), coq_N(v), ln, coq_str(attr)) for n, v, ln, attr in segp) + " ].\n")
     out.append("Definition enc_bech32 : N := %s.\nDefinition enc_bech32m : N := %s.\n\n" % (coq_N(enc32), coq_N(enc32m)))
     hexs, ints = _token_opcodes()
+    out.append(_opcode_names())
     out.append("(* ScriptTools.compile: a token t with \"OP_\"+t.upper() an opcode name compiles to that opcode *)\n")
     out.append("(* None = compile() raises KeyError (upper-cased name exists, lower-case lookup fails) *)\n")
     out.append("Definition hex_token_opcodes : list (list byte * option N) :=\n  [ " + "; ".join(
